@@ -11,7 +11,7 @@ ENSURES = {
     "chain": "all(hi(result[k]) == lo(result[k + 1]) for k in range(len(result) - 1))",
     "each-nonempty": "all(lo(result[k]) < hi(result[k]) for k in range(len(result)))",
     "own-start": "all(result[k][1] == lo(result[k]) for k in range(len(result)))",
-    "args-passed": "all(result[k][2:] == args for k in range(len(result)))",
+    "args-passed": "all(result[k][2:] == final(args) for k in range(len(result)))",
 }
 ENSURES_ARR = dict(ENSURES)
 ENSURES_ARR["arr-slice"] = "all(slice_base(result[k][0]) is arr for k in range(len(result)))"
